@@ -1,0 +1,38 @@
+//go:build verif
+
+// Contracts for shuffle sharding (C12), checked by /verif/govc (comment-only file).
+
+package ring
+
+//@ func shouldIncludeReadonlyInstanceInTheShard
+//@   property C12
+//@   ensures  writable: !instance.ReadOnly ==> result
+//@   ensures  nolookback: instance.ReadOnly && lookbackPeriod == 0 ==> !result
+//@   ensures  lookback: instance.ReadOnly && lookbackPeriod > 0 ==> (result <==> !(instance.ReadOnlyUpdatedTimestamp > 0 && instance.ReadOnlyUpdatedTimestamp < lookbackUntil))
+//@   pure
+//@
+//@ # byZoneRep: per-zone token lists are strictly sorted and every token there has an owner entry
+//@ pred byZoneRep(r Ring) = forall z string :: in(z, r.ringTokensByZone) ==> sortedStrict(r.ringTokensByZone[z]) &&
+//@        (forall i int :: 0 <= i && i < len(r.ringTokensByZone[z]) ==> in(r.ringTokensByZone[z][i], r.ringInstanceByToken))
+//@
+//@ # The shard handed to buildRingForTheShard: members are entries of this ring, unchanged; without look-back no
+//@ # read-only instance is ever selected; the inconsistent-token panic is unreachable on a well-formed ring.
+//@ assume func Ring.buildRingForTheShard
+//@   modifies nothing
+//@   ensures result != nil
+//@
+//@ func Ring.shuffleShard
+//@   property C12 C05
+//@   requires ringRep(r) && byZoneRep(r) && size > 0 && len(r.ringTokens) > 0
+//@   requires forall t uint32 :: in(t, r.ringInstanceByToken) ==> in(r.ringInstanceByToken[t].InstanceID, r.ringDesc.Ingesters)
+//@   requires forall i int :: 0 <= i && i < len(r.ringZones) ==> in(r.ringZones[i], r.ringTokensByZone) && len(r.ringTokensByZone[r.ringZones[i]]) > 0
+//@   at before@ring.Ring.buildRingForTheShard: assert forall id string :: in(id, shard) ==> in(id, r.ringDesc.Ingesters) && shard[id] == r.ringDesc.Ingesters[id]
+//@   at before@ring.Ring.buildRingForTheShard: assert lookbackPeriod == 0 ==> (forall id string :: in(id, shard) ==> !shard[id].ReadOnly)
+//@   loop 0 invariant !isnil(shard) && (forall id string :: in(id, shard) ==> in(id, r.ringDesc.Ingesters) && shard[id] == r.ringDesc.Ingesters[id]) && (lookbackPeriod == 0 ==> (forall id string :: in(id, shard) ==> !shard[id].ReadOnly))
+//@   loop 1 invariant !isnil(shard) && (forall id string :: in(id, shard) ==> in(id, r.ringDesc.Ingesters) && shard[id] == r.ringDesc.Ingesters[id]) && (lookbackPeriod == 0 ==> (forall id string :: in(id, shard) ==> !shard[id].ReadOnly))
+//@   loop 2 invariant !isnil(shard) && (forall id string :: in(id, shard) ==> in(id, r.ringDesc.Ingesters) && shard[id] == r.ringDesc.Ingesters[id]) && (lookbackPeriod == 0 ==> (forall id string :: in(id, shard) ==> !shard[id].ReadOnly))
+//@   loop 2 invariant len(tokens) > 0 && sortedStrict(tokens) && (forall j int :: 0 <= j && j < len(tokens) ==> in(tokens[j], r.ringInstanceByToken))
+//@   loop 3 invariant !isnil(shard) && (forall id string :: in(id, shard) ==> in(id, r.ringDesc.Ingesters) && shard[id] == r.ringDesc.Ingesters[id]) && (lookbackPeriod == 0 ==> (forall id string :: in(id, shard) ==> !shard[id].ReadOnly))
+//@   loop 3 invariant len(tokens) > 0 && sortedStrict(tokens) && (forall j int :: 0 <= j && j < len(tokens) ==> in(tokens[j], r.ringInstanceByToken))
+//@   loop 3 invariant 0 <= iterations && iterations <= len(tokens) && 0 <= p && p <= len(tokens)
+//@   modifies nothing
